@@ -200,8 +200,51 @@ func Pfx6(i int, id uint32) NLRI {
 	return n
 }
 
+// RouterID is the BGP identifier of the monitored router in every generated sent OPEN.
+const RouterID = 0x0a000001
+
+// Variants of the path attributes of a generated UPDATE: patterns a real session's Adj-RIB-In treats
+// specially (loops, reflection attributes, roles, well-known communities, odd next hops). A BMP mirror
+// stores what was reported regardless.
+var Variants = []string{"plain", "aspath-local-as", "aspath-peer-twice", "cluster-list", "originator-other", "otc",
+	"communities", "nexthop-local", "nexthop-far", "originator-router-id", "empty-aspath"}
+
+// PickVariant draws a variant: mostly plain, the two the pseudo session hides (known findings) rarely.
+func PickVariant(r *hx.RNG) string {
+	k := r.Intn(100)
+	switch {
+	case k < 50:
+		return "plain"
+	case k < 64:
+		return "aspath-local-as"
+	case k < 68:
+		return "aspath-peer-twice"
+	case k < 75:
+		return "cluster-list"
+	case k < 79:
+		return "originator-other"
+	case k < 84:
+		return "otc"
+	case k < 90:
+		return "communities"
+	case k < 93:
+		return "nexthop-local"
+	case k < 96:
+		return "nexthop-far"
+	case k < 98:
+		return "originator-router-id"
+	default:
+		return "empty-aspath"
+	}
+}
+
 // UpdateFor builds a well-formed UPDATE of peer p.
 func UpdateFor(p Peer, withdraw, announce []NLRI) []byte {
+	return UpdateForV(p, withdraw, announce, "plain")
+}
+
+// UpdateForV builds a well-formed UPDATE of peer p with the given attribute variant.
+func UpdateForV(p Peer, withdraw, announce []NLRI, variant string) []byte {
 	u := Update{AddPath4: p.AP4, AddPath6: p.AP6, ASN4: p.ASN4, LocalPref: -1,
 		NextHop4: [4]byte{p.Addr[12], p.Addr[13], p.Addr[14], p.Addr[15]}, Withdraw: withdraw, Announce: announce}
 	u.NextHop6 = Addr6(0x20010db800000000, 0xffff)
@@ -213,6 +256,35 @@ func UpdateFor(p Peer, withdraw, announce []NLRI) []byte {
 	} else {
 		u.ASPath = []uint32{65100}
 		u.LocalPref = 100
+	}
+	las := p.LocalAS
+	if !p.ASN4 && las > 65535 {
+		las = 23456
+	}
+	switch variant {
+	case "aspath-local-as":
+		u.ASPath = append(u.ASPath, las, 65101) // the monitored router's own AS: an AS loop on a real session
+	case "aspath-peer-twice":
+		u.ASPath = append([]uint32{u.ASPath[0]}, u.ASPath...)
+	case "cluster-list":
+		u.ClusterList = []uint32{RouterID, las, 7}
+		u.Originator = 0x0a0000fe
+	case "originator-other":
+		u.Originator = 0x0a0000fd
+	case "originator-router-id":
+		u.Originator = RouterID
+	case "otc":
+		u.OTC = p.AS
+	case "communities":
+		u.Communities = []uint32{0xffffff01, 0xffffff02, 0xffffff03, 65001<<16 | 1}
+	case "nexthop-local":
+		u.NextHop4 = [4]byte{10, 0, 0, 1}
+		u.NextHop6 = Addr6(0x20010db800000000, 1)
+	case "nexthop-far":
+		u.NextHop4 = [4]byte{192, 0, 2, 1}
+		u.NextHop6 = Addr6(0x20010db8ffff0000, 0x99)
+	case "empty-aspath":
+		u.EmptyASPath = true
 	}
 	return u.Bytes()
 }
